@@ -100,6 +100,14 @@ def concretise(text, rng, style=None):
     nullv, null_spell, near_spell = NULL_STYLES[style.get("null", "std")]
     vers = version_of(text)
     cursec = None
+    spell_seed = style.get("spell_seed")
+
+    def pick(options, key):
+        """Number spellings: drawn from rng, or (metamorphic pairs) fixed by (spell_seed, key) so that both texts agree."""
+        if spell_seed is None:
+            return rng.choice(options)
+        import zlib
+        return options[zlib.crc32(repr((spell_seed, key)).encode()) % len(options)]
     dlm = "SPACE"
     for ln in text:
         if ln["k"] == "item" and ln["m"] == "DLM":
@@ -127,7 +135,7 @@ def concretise(text, rng, style=None):
             if ln["v"] == "c":
                 m = names[m]
             if (ln["m"], ln["v"]) == ("NULL", "null1"):
-                v = rng.choice(null_spell)
+                v = pick(null_spell, "nullitem")
             pad = lambda: rng.choice(["", " ", "   ", "\t"]) if not style.get("plain") else " "
             lead = rng.choice(["", " "]) if not style.get("plain") else ""
             # LAS 1.2 ~Well lines other than STRT/STOP/STEP/NULL carry  DESCRIPTION : VALUE
@@ -158,11 +166,11 @@ def concretise(text, rng, style=None):
                 cls = cell["cls"]
                 if cls == "FIN":
                     x = cell_value(cell["id"])
-                    toks.append(rng.choice(FIN_SPELL)(x))
+                    toks.append(pick(FIN_SPELL, cell["id"])(x))
                 elif cls == "NULLEQ":
-                    toks.append(rng.choice(null_spell))
+                    toks.append(pick(null_spell, cell["id"]))
                 elif cls == "NEAR":
-                    toks.append(rng.choice(near_spell))
+                    toks.append(pick(near_spell, cell["id"]))
                 else:
                     toks.append("t%d" % cell["id"])
             if dlm == "COMMA":
